@@ -14,7 +14,7 @@
 
 from __future__ import annotations
 
-from collections.abc import Iterator
+from collections.abc import Iterator, Set
 from typing import Any, TYPE_CHECKING
 
 import numpy as np
@@ -81,6 +81,9 @@ class PauliSumExponential:
     @_compat.cached_method
     def _is_parameterized_(self) -> bool:
         return protocols.is_parameterized(self._exponent)
+
+    def _parameter_names_(self) -> Set[str]:
+        return protocols.parameter_names(self._exponent)
 
     def _resolve_parameters_(
         self, resolver: cirq.ParamResolver, recursive: bool
